@@ -1151,11 +1151,13 @@ impl<'a, 'b, W: Write> Serializer for &'a mut YamlSerializer<'b, W> {
                 self.write_indent(base)?;
             }
             // Compute the indentation indicator N for block scalars.
-            // N = indent_step * body_base = number of spaces the parser will strip.
+            // The indicator counts from the indentation of the parent node (the mapping key or
+            // the sequence dash the scalar hangs on), not from column 0: the body is written one
+            // level deeper than that, so N is one indentation step whatever the nesting.
             // We must emit an explicit indicator when the first non-empty content line
             // has leading whitespace, so the parser knows how much to strip.
             let body_base = base + 1;
-            let indent_n = self.indent_step * body_base;
+            let indent_n = self.indent_step;
 
             // Check if we need an explicit indentation indicator.
             // Required when the first non-empty line has leading whitespace.
